@@ -8,7 +8,7 @@ RULE = ('rendering: every code for n_word<=6 (quick) / <=8 (thorough) and bounda
         'base_repr(2/8/10/16), scalars and 1-D / 2-D arrays, compared with the independent Python rendering of (code mod 2^n_word) and with the model strings; parsing round trip (n_word>=2): value mode for n_word<=52 and '
         'raw=True mode for every n_word up to 256 through constructor, call, set_val and from_bin, for binary and hex strings, scalars and 1-D arrays (2-D string arrays: see ASSUMPTIONS). '
         'Non-trivial = the code is negative or has its top bit set; distinct by full input.')
-ASSUMPTIONS = ['2-D bin()/hex() return lists of NumPy string arrays; rendering is checked for them, feeding them back is checked row by row']
+ASSUMPTIONS = ['raw=True round trips feed the rendering without the binary point (what a point means for a raw code is not defined by the property)']
 
 def py_bin(n, c): return format(c % (1 << n), '0%db' % n)
 def py_hex(n, c): return format(c % (1 << n), '0%dX' % ((n + 3) // 4))
@@ -118,6 +118,11 @@ def run_array_cases(cases, res):
                 bd = [str(t) for t in x.bin(frac_dot=True)]
                 if bd != [insert_point(py_bin(n, t), nf) for t in codes]:
                     res.fail(c, 'C11: element-wise bin(frac_dot=True) of an array is not the image of each code with the point', expected=[insert_point(py_bin(n, t), nf) for t in codes], got=bd); continue
+            if shape == (2, 2):
+                # the rendering of a 2-D object (a list of NumPy string arrays), fed back as it is
+                y2 = fx.Fxp(x.bin(prefix='0b'), s, n, nf, raw=True); z2 = fx.Fxp(None, s, n, nf); z2.set_val(x.hex(), raw=True)
+                if lib.codes_of(y2) != codes or lib.codes_of(z2) != codes or list(np.asarray(y2.val).shape) != [2, 2]:
+                    res.fail(c, 'C11: feeding the rendered strings of a 2-D array back does not restore the codes', expected=codes, got=(lib.codes_of(y2), lib.codes_of(z2))); continue
             br = np.array(x.base_repr(10)).reshape(-1).tolist()
             if [str(t) for t in br] != [base_repr(t, 10) for t in codes]:
                 res.fail(c, 'C11: element-wise base_repr of an array is not the numeral of each code', expected=[base_repr(t, 10) for t in codes], got=br); continue
